@@ -22,11 +22,27 @@ def nm_pairs(anyorder=False):
     return _NM_PAIRS[anyorder]
 
 
-def draw_raw(draw, width):
-    """raw field value biased to 0 / all ones / sign bit only"""
+def draw_raw(draw, width, hist=None, offset=0):
+    """raw field value biased to 0 / all ones / sign bit only; with a history of the values drawn earlier for the same
+    message, also to a value that stands in a relation to them (equal to an earlier field, one more or less than the
+    previous one, their sum) or to the position of the field itself (its bit or byte offset, its width)"""
     if width == 0:
         return 0
-    k = draw(st.integers(0, 9))
+    k = draw(st.integers(0, 11 if hist else 9))
+    if k >= 10:
+        m = (1 << width) - 1
+        j = draw(st.integers(0, 7))
+        if j <= 2:
+            return hist[draw(st.integers(0, len(hist) - 1))] & m
+        if j == 3:
+            return (hist[-1] + 1) & m
+        if j == 4:
+            return (hist[-1] - 1) & m
+        if j == 5:
+            return (hist[-1] + hist[draw(st.integers(0, len(hist) - 1))]) & m
+        if j == 6:
+            return (offset if draw(st.booleans()) else offset // 8) & m
+        return width & m
     if k == 0:
         return 0
     if k == 1:
@@ -165,7 +181,13 @@ def make_source(draw, ident, profile="mixed", msm_cells=64, fixed=None):
             # text: code units that mean something to text handling (NUL, CR, LF, blank, the UTF-8 byte order mark,
             # lead / continuation bytes, 0xFF), so that runs such as CR LF or EF BB BF turn up in generated text
             return draw(st.sampled_from([0x00, 0x0D, 0x0A, 0x0D, 0x0A, 0x20, 0xEF, 0xBB, 0xBF, 0xC3, 0xA9, 0xFF, 0x41, 0x7F]))
-        return draw_raw(draw, width)
+        hist = w.scratch.setdefault("hist", [])
+        v = draw_raw(draw, width, hist, w.nbits)
+        if len(hist) < 64:
+            hist.append(v)
+        else:
+            hist[(w.nbits // 7) % 64] = v
+        return v
 
     return src
 
